@@ -122,6 +122,8 @@ def run(repo: Repo) -> Result:
     tk = repo.own_method("liquid.environment.Environment", "tokenizer")
     res.ob(tk.qual)
     c = next((x for x in calls(tk.node) if callee_name(x) == "get_lexer"), None)
+    if c is not None and any(isinstance(a_, ast.Starred) for a_ in c.args):
+        c = _expand_star(repo, tk, c) or c
     b = bind_args(c, gl.node, skip_self=False) if c is not None else None
     if b is None or any(attr_chain(b.get(p)) != ["self", p] for p in DELIMS):
         res.add("C11-PLUMB", tk.qual, "args", "Environment.tokenizer must pass self.<delimiter> to the get_lexer parameter of the same name (a swapped pair lexes with the wrong delimiters)", tk.file, tk.line)
@@ -247,6 +249,41 @@ def run(repo: Repo) -> Result:
     _check_marker(repo, res)
     res.stats.update(tag_inits=n_tag, template_config_keywords=cfg)
     return res
+
+
+def _expand_star(repo: Repo, f, call: ast.Call):
+    """``g(*self.<prop>)`` where ``<prop>`` is a property of the class whose single return is a
+    tuple literal or a call of a NamedTuple class: the call with the star argument written out
+    positionally (NamedTuple keywords placed in field order).  None if that cannot be done."""
+    if not (len(call.args) == 1 and isinstance(call.args[0], ast.Starred) and not call.keywords):
+        return None
+    v = call.args[0].value
+    if not (isinstance(v, ast.Attribute) and is_name(v.value, "self") and f.cls is not None):
+        return None
+    prop = repo.find_method(f.cls, v.attr)
+    if prop is None or "property" not in " ".join(prop.decorators()):
+        return None
+    rets = [r.value for r in walk_no_nested(prop.node) if isinstance(r, ast.Return) and r.value is not None]
+    if len(rets) != 1:
+        return None
+    r = rets[0]
+    elts = None
+    if isinstance(r, ast.Tuple):
+        elts = list(r.elts)
+    elif isinstance(r, ast.Call) and isinstance(r.func, (ast.Name, ast.Attribute)):
+        cls_ = repo.resolve_in(prop.module, text(r.func))
+        if hasattr(cls_, "node") and isinstance(cls_.node, ast.ClassDef) and any("NamedTuple" in text(b) for b in cls_.node.bases):
+            fields = [st.target.id for st in cls_.node.body if isinstance(st, ast.AnnAssign) and isinstance(st.target, ast.Name)]
+            vals = dict(zip(fields, r.args))
+            for k in r.keywords:
+                if k.arg is None:
+                    return None
+                vals[k.arg] = k.value
+            if all(fld in vals for fld in fields):
+                elts = [vals[fld] for fld in fields]
+    if elts is None:
+        return None
+    return ast.copy_location(ast.Call(func=call.func, args=elts, keywords=[]), call)
 
 
 MARK = ""  # stands for re.escape(<marker derived from comment_start_string>)
